@@ -13,7 +13,7 @@ LEVEL_TEXT = ('Kill points cannot be enumerated statically; decided instead are 
               'write of a case and implies its result file, a failed case writes no marker, only marked cases are skipped, a worker result is built from the worker\'s own arguments, '
               'journal writer and reader agree (including tuple-valued must-include), and the returned list is uniform across fresh and restarted cases.')
 LEVEL_NOTE = 'Trusted: ast front-end, CFG builder. Not decided: atomicity of a single np.savez / file write under kill -9 (OS-level), behaviour of pathos/multiprocessing pools.'
-EXPLANATION = 'R18.1 marker last; R18.2 failed => no marker, skip => marker; R18.3 own identity; R18.4 journal agreement; R18.5 uniform results; R18.6 skip set consistency; R18.7 results read only under the marker.'
+EXPLANATION = 'R18.1 marker last; R18.2 failed => no marker, skip => marker; R18.3 own identity; R18.4 journal agreement; R18.5 uniform results; R18.6 skip set consistency; R18.7 results read only under the marker; R18.8 case-directory names: worker template, restart scan and reload template agree.'
 
 
 def const_strings(node):
